@@ -71,6 +71,22 @@ func (r *rewriter) rewriteCall(c *ast.CallExpr) {
 			}
 		}
 	}
+	if r.rules["net"] {
+		if sel, ok := c.Fun.(*ast.SelectorExpr); ok {
+			if id, ok := sel.X.(*ast.Ident); ok && id.Name == "net" {
+				switch sel.Sel.Name {
+				case "DialTimeout":
+					c.Fun = rt("NetDialTimeout")
+					r.used = true
+					return
+				case "Listen":
+					c.Fun = rt("NetListen")
+					r.used = true
+					return
+				}
+			}
+		}
+	}
 	if r.rules["now"] {
 		if sel, ok := c.Fun.(*ast.SelectorExpr); ok && len(c.Args) == 0 && sel.Sel.Name == "Now" {
 			if id, ok := sel.X.(*ast.Ident); ok && id.Name == "time" {
